@@ -567,3 +567,28 @@ package tree
 //@   loop 0 invariant collected_so_far_is_kept_resolvers: len(deletes) >= len(acc) && forall(i, 0, len(acc), deletes[i] == old(acc[i]))
 //@   loop 1 invariant collected_so_far_is_kept: len(deletes) >= len(acc) && forall(i, 0, len(acc), deletes[i] == old(acc[i]))
 //@   loop 1 invariant all_children_are_searched [C01]: called(GetAll) && $map == callres(GetAll) && allstr(k, present($map, k) ==> $map[k] != nil)
+
+//   shouldDelete   = the leaf variants are to be deleted, or: there are active children, every one of them can be
+//                    deleted, at least one of them is to be deleted, and the leaf variants can be deleted
+//@ func (*sharedEntryAttributes).shouldDelete
+//@   props C01
+//@   requires s != nil && s.leafVariants != nil && lvOK(s.leafVariants) && s.cacheMutex != nil
+//@   uses canDelete: verdict
+//@   uses shouldDelete: verdict
+//@   internal unfolds: old(s.cacheShouldDelete) == nil ==> result == (callres(LeafVariants_shouldDelete) ||
+//@            (exstr(k, present(callres(filterActiveChoiceCaseChilds), k)) &&
+//@             allstr(k, present(callres(filterActiveChoiceCaseChilds), k) ==> cdel(callres(filterActiveChoiceCaseChilds)[k])) &&
+//@             exstr(k, present(callres(filterActiveChoiceCaseChilds), k) && sdel(callres(filterActiveChoiceCaseChilds)[k])) &&
+//@             callres(LeafVariants_canDelete)))
+//@   loop 0 invariant children_so_far: $map == callres(filterActiveChoiceCaseChilds) && allstr(k, $visited[k] ==> present($map, k) && cdel($map[k])) &&
+//@            (canDelete == exstr(k, $visited[k])) && (shouldDelete == exstr(k, $visited[k] && sdel($map[k])))
+
+//@ func (*sharedEntryAttributes).remainsToExist
+//@   props C01 C04
+//@   requires s != nil && s.leafVariants != nil && lvOK(s.leafVariants) && s.cacheMutex != nil
+//@   uses remainsToExist: verdict spec
+//@   internal unfolds: old(s.cacheRemains) == nil && (callres(LeafVariants_remainsToExist) ||
+//@            exstr(k, present(callres(filterActiveChoiceCaseChilds), k) && rem(callres(filterActiveChoiceCaseChilds)[k]))) ==> result
+//@   internal only_if: old(s.cacheRemains) == nil && result ==> callres(LeafVariants_remainsToExist) ||
+//@            exstr(k, present(callres(filterActiveChoiceCaseChilds), k) && rem(callres(filterActiveChoiceCaseChilds)[k])) || callres(choiceCasesResolvers_remainsToExist)
+//@   loop 0 invariant no_child_remains_so_far: $map == callres(filterActiveChoiceCaseChilds) && allstr(k, $visited[k] ==> !rem($map[k])) && !childsRemain
